@@ -176,7 +176,16 @@ def _run(ctx, case, rec):
                         from geneticengine.grammar.decorators import weight as declare_weight
 
                         prods = [c for c in ctx.built.classes if isinstance(c, type) and not getattr(c, "__abstractmethods__", None) and c in ctx.grammar.all_nodes and c not in ctx.grammar.alternatives]
-                        if prods:
+                        in_a_rule = {p for ps in ctx.grammar.alternatives.values() for p in ps}
+                        loose = [c for c in prods if c not in in_a_rule]  # a concrete start symbol, a class used only as a field type
+                        if loose and rng.random() < 0.6:
+                            # such a class is normalised in no rule: what the first grammar answers for it must still be what
+                            # was declared when IT was extracted (the stack mapper weighs every symbol it may push)
+                            declare_weight(rng.choice([0.05, 3, 10]))(rng.choice(loose))
+                            rec.count("next_experiment_reweighted_a_class_outside_every_rule")
+                            if ctx.grammar.weights is not None:
+                                rec.count(f"next_experiment_reweighted_a_class_outside_every_rule:weighted-grammar:{kind}")
+                        elif prods:
                             declare_weight(rng.choice([2, 5, 10]))(rng.choice(prods))
                         grammars.extract(ctx.built)
                         rec.count("next_experiment_prepared_between_mappings")
